@@ -6,13 +6,13 @@ From Coq Require Import List String.
 From PV Require Import Gen.PinsC17.
 Import ListNotations.
 Theorem hand_modelled_sources_unchanged_C17 : PinsC17.pins = [
-  ("src/pendulum/parsing/__init__.py::_parse"%string, "7392ae6f31621b1a4260"%string);
+  ("src/pendulum/parsing/__init__.py::_parse"%string, "e1bf5535db80f1c278b8"%string);
   ("src/pendulum/parsing/__init__.py::_parse_common"%string, "166480d8b3ef10662a43"%string);
   ("src/pendulum/parsing/__init__.py::_normalize"%string, "429d43efb9876a9af7a5"%string);
   ("src/pendulum/parsing/__init__.py::parse"%string, "750e155f220ccc282c77"%string);
-  ("src/pendulum/parsing/__init__.py::_parse_iso8601_interval"%string, "764b80a56e5a831841a5"%string);
+  ("src/pendulum/parsing/__init__.py::_parse_iso8601_interval"%string, "6b9d50718a054417c57b"%string);
   ("src/pendulum/parser.py::parse"%string, "d696868c9735427664f0"%string);
-  ("src/pendulum/parser.py::_parse"%string, "d40523039d688e682e47"%string);
+  ("src/pendulum/parser.py::_parse"%string, "73897f7e0482fd280005"%string);
   ("rust/src/python/parsing.rs::parse_iso8601"%string, "6a9c023548d1e6a11957"%string);
   ("rust/src/parsing.rs::parse"%string, "3cb046de4ca77103518c"%string)].
 Proof. exact eq_refl. Qed.
